@@ -1,10 +1,10 @@
 package main
 
 import (
-	"strings"
 	"context"
 	"errors"
 	"fmt"
+	"strings"
 	"time"
 
 	pubsub "github.com/libp2p/go-libp2p-pubsub"
